@@ -101,15 +101,16 @@ def sortedStorage (fs : List Frontend) : List (Nat × Frontend) :=
   (fs.zipIdx.map fun (f, i) => (i, f)).foldl (fun acc x => insertByType x acc) []
 
 /-- Two details of `get_components` concerning the temporary merge plugin `_temp_<hash>` that `get_iter`
-creates for several same-kind targets.  The translator reads both from the current source
-(`Generated.rules`), the theorems hold for either value.
+creates for several same-kind targets.  The code as it is now (after the `fix:` commits for D22 and D23) has
+both set; the translator re-reads them from the current source (`Generated.rules`); the theorems of C11 hold
+for either value, `Props/C11` keeps `…_old_counterexample`s for the old rules.
   * `tempDepsAreTargets`: `_target_should_be_saved` is given `final_targets` (every `_temp_` target replaced
-    by its `depends_on`) instead of `targets`  (false = finding D22: TARGET-policy types requested together
-    are not saved);
-  * `starSkipsTemp`: the `"*" in forbid_creation_of` test skips `_temp_` types (false = finding D23). -/
+    by its `depends_on`) instead of `targets`  (false = defect D22: TARGET-policy types requested together
+    were not saved);
+  * `starSkipsTemp`: the `"*" in forbid_creation_of` test skips `_temp_` types (false = defect D23). -/
 structure Rules where
-  tempDepsAreTargets : Bool := false
-  starSkipsTemp : Bool := false
+  tempDepsAreTargets : Bool := true
+  starSkipsTemp : Bool := true
 deriving Repr, DecidableEq, Inhabited
 
 structure Env where
